@@ -761,10 +761,18 @@ func opCall(pc *uint64, interpreter *EVMInterpreter, contract *Contract, memory 
 	// Get the arguments from the memory.
 	args := memory.Get(inOffset.Int64(), inSize.Int64())
 
+	passed := gas
 	if value.Sign() != 0 {
 		gas += params.CallStipend
 	}
 	ret, returnGas, err := interpreter.evm.Call(contract, toAddr, args, gas, value)
+	// The stipend is the callee's. Nothing charges it to the caller's allowance in this
+	// VM (call costs are metered against the transaction budget), so the caller gets back
+	// at most what it passed along: otherwise every value-bearing call adds up to 2300
+	// to contract.Gas, and the transaction ends with more gas than it bought.
+	if returnGas > passed {
+		returnGas = passed
+	}
 	if err != nil {
 		stack.push(interpreter.intPool.getZero())
 	} else {
@@ -790,10 +798,18 @@ func opCallCode(pc *uint64, interpreter *EVMInterpreter, contract *Contract, mem
 	// Get arguments from the memory.
 	args := memory.Get(inOffset.Int64(), inSize.Int64())
 
+	passed := gas
 	if value.Sign() != 0 {
 		gas += params.CallStipend
 	}
 	ret, returnGas, err := interpreter.evm.CallCode(contract, toAddr, args, gas, value)
+	// The stipend is the callee's. Nothing charges it to the caller's allowance in this
+	// VM (call costs are metered against the transaction budget), so the caller gets back
+	// at most what it passed along: otherwise every value-bearing call adds up to 2300
+	// to contract.Gas, and the transaction ends with more gas than it bought.
+	if returnGas > passed {
+		returnGas = passed
+	}
 	if err != nil {
 		stack.push(interpreter.intPool.getZero())
 	} else {
